@@ -687,3 +687,239 @@ pub fn jubjub_affine_to_bytes_contract() {
     vcover!(out[31] >> 7 == 0);
     let _ = (JubjubExtended::identity(), core::mem::size_of::<JubjubSubgroup>());
 }
+
+// =========================================================================================== Jubjub subgroup predicates
+// `is_torsion_free` is `[r]P == identity` with `[r]P` a 252-step double-and-add over blst field operations. The scalar
+// multiplication (private `JubjubExtended::multiply`) is replaced by a recording oracle that answers an ARBITRARY extended
+// point R; what is decided is how the predicates USE that answer: identity means u = 0 AND v = z, not merely u = 0.
+use crate::stubs::{jj_from_limbs, jj_limbs, JJ_DBL, JJ_MUL, JJ_MUL_BY};
+use group::cofactor::CofactorGroup;
+use group::Group;
+
+/// Montgomery form of 1 in the BLS12-381 scalar field (2^256 mod q, python)
+pub const FQ_ONE: [u64; 4] = [0x00000001fffffffe, 0x5884b7fa00034802, 0x998c4fefecbc4ff5, 0x1824b159acc5056f];
+/// a point of the prime-order subgroup (affine u, v as integers; [r]G = (0, 1) checked with python big integers) ...
+pub const JJ_G: ([u64; 4], [u64; 4]) = (
+    [0x512dfea318d56fe5, 0x04315c657fbe375f, 0x5ed37ee3b172f5ee, 0x3ea5c4673a121ca3],
+    [0xc10cea38d50c55cb, 0xb9aa6e8e40808413, 0x78f7d30d3f616cb3, 0x57137b83ea6edb4f],
+);
+/// ... and G + (0, -1) = (-u, -v), a point of order 2r: [r](-u, -v) = (0, -1)
+pub const JJ_G_PLUS_ORDER2: ([u64; 4], [u64; 4]) = (
+    [0xaed2015be72a901c, 0x4f8c479d8040249f, 0xd4665924582ee217, 0x3547e2ebef8b60a4],
+    [0x3ef315c62af3aa36, 0x9a133574bf7dd7eb, 0xba4204faca406b51, 0x1cda2bcf3f2ea1f8],
+);
+
+/// the definition: (u, v, z, ..) is the identity iff u = 0 and v = z
+fn ident_def(l: &[u64; 20]) -> bool {
+    l[0] == 0 && l[1] == 0 && l[2] == 0 && l[3] == 0 && l[4] == l[8] && l[5] == l[9] && l[6] == l[10] && l[7] == l[11]
+}
+
+/// (c) `is_identity` of extended and affine points against the definition, on arbitrary limbs
+#[cfg_attr(kani, kani::proof)]
+#[cfg_attr(kani, kani::unwind(34))]
+pub fn jj_is_identity_definition() {
+    let l: [u64; 20] = any();
+    let p = jj_from_limbs(&l);
+    assert!(bool::from(p.is_identity()) == ident_def(&l));
+    assert!(bool::from(Group::is_identity(&p)) == ident_def(&l));
+    let a = JubjubAffine::from_raw_unchecked(
+        Base::from(blst::blst_fr { l: [l[0], l[1], l[2], l[3]] }),
+        Base::from(blst::blst_fr { l: [l[4], l[5], l[6], l[7]] }),
+    );
+    let a_ident = l[0] == 0 && l[1] == 0 && l[2] == 0 && l[3] == 0 && [l[4], l[5], l[6], l[7]] == FQ_ONE;
+    assert!(bool::from(a.is_identity()) == a_ident);
+    // the identity constants are the identity
+    let id = jj_limbs(&JubjubExtended::identity());
+    assert!(ident_def(&id) && [id[4], id[5], id[6], id[7]] == FQ_ONE);
+    assert!(bool::from(JubjubAffine::identity().is_identity()));
+    vcover!(ident_def(&l));
+    vcover!(l[0] == 0 && l[1] == 0 && l[2] == 0 && l[3] == 0 && !ident_def(&l), "u = 0 but not the identity (e.g. the order-2 point)");
+    vcover!(a_ident);
+}
+
+/// (a)+(b) every torsion predicate asks the multiplication oracle about exactly this point and the scalar r, and is true
+/// iff the answer R is the identity (u = 0 and v = z):
+/// 0 inherent is_torsion_free, 1 CofactorGroup::is_torsion_free, 2 is_prime_order (and P itself not the identity),
+/// 3 CofactorGroup::into_subgroup (Some iff, value = P), 4 / 5 the JubjubAffine versions of 0 / 2
+#[cfg_attr(kani, kani::proof)]
+#[cfg_attr(kani, kani::unwind(34))]
+#[cfg_attr(kani, kani::stub(midnight_curves::JubjubExtended::multiply, crate::stubs::jj_multiply_oracle))]
+pub fn jj_torsion_predicates_contract() {
+    let mut l: [u64; 20] = any();
+    let which: u8 = any();
+    assume(which < 6);
+    if which >= 4 {
+        // affine (u, v) is the extended point (u, v, 1, u, v)
+        let mut k = 0;
+        while k < 4 {
+            l[8 + k] = FQ_ONE[k];
+            l[12 + k] = l[k];
+            l[16 + k] = l[4 + k];
+            k += 1;
+        }
+    }
+    let p = jj_from_limbs(&l);
+    let a = JubjubAffine::from_raw_unchecked(
+        Base::from(blst::blst_fr { l: [l[0], l[1], l[2], l[3]] }),
+        Base::from(blst::blst_fr { l: [l[4], l[5], l[6], l[7]] }),
+    );
+    let (answer, value): (bool, [u64; 20]) = match which {
+        0 => (p.is_torsion_free().into(), l),
+        1 => (CofactorGroup::is_torsion_free(&p).into(), l),
+        2 => (p.is_prime_order().into(), l),
+        3 => {
+            let s = CofactorGroup::into_subgroup(p);
+            let some: bool = s.is_some().into();
+            (some, if some { jj_limbs(&JubjubExtended::from(s.unwrap())) } else { l })
+        }
+        4 => (a.is_torsion_free().into(), l),
+        _ => (a.is_prime_order().into(), l),
+    };
+    unsafe {
+        assert!(JJ_MUL.n == 1, "the scalar multiplication is consulted exactly once");
+        assert!(eqn(&JJ_MUL.a[0][0], &l), "... about this very point");
+        assert!(eqb(&JJ_MUL_BY, &limbs4_to_bytes(&crate::c10::JFR_M)), "... with the scalar r");
+        let r_is_identity = ident_def(&JJ_MUL.r[0]);
+        let expected = if which == 2 || which == 5 { r_is_identity && !ident_def(&l) } else { r_is_identity };
+        assert!(answer == expected, "torsion predicate differs from: [r]P is the identity (u = 0 AND v = z)");
+        assert!(eqn(&value, &l));
+        let r = JJ_MUL.r[0];
+        vcover!(r[0] == 0 && r[1] == 0 && r[2] == 0 && r[3] == 0 && !r_is_identity, "[r]P has u = 0 but is not the identity");
+        vcover!(answer && which == 3);
+        vcover!(answer && which == 5);
+        vcover!(!answer);
+    }
+}
+
+/// (a) on a CONCRETE point so that the native replay runs the real code end to end: under Kani `multiply` is the oracle
+/// (contract as above); natively (binary `replay_real`: real blst, no stub) R is the real [r]P obtained through the public
+/// `to_niels().multiply_bits(r)`. For G + (0,-1) the real R is (0, -1): u = 0 but not the identity.
+fn jj_torsion_free_concrete(pt: ([u64; 4], [u64; 4])) {
+    let p = JubjubAffine::from_raw_unchecked(Base::from_raw(pt.0), Base::from_raw(pt.1)).to_extended();
+    let t: bool = p.is_torsion_free().into();
+    #[cfg(kani)]
+    let r: [u64; 20] = unsafe {
+        assert!(JJ_MUL.n == 1 && eqn(&JJ_MUL.a[0][0], &jj_limbs(&p)));
+        assert!(eqb(&JJ_MUL_BY, &limbs4_to_bytes(&crate::c10::JFR_M)));
+        JJ_MUL.r[0]
+    };
+    #[cfg(not(kani))]
+    let r: [u64; 20] = jj_limbs(&p.to_niels().multiply_bits(&limbs4_to_bytes(&crate::c10::JFR_M)));
+    assert!(t == ident_def(&r), "is_torsion_free differs from: [r]P is the identity (u = 0 AND v = z)");
+    vcover!(t);
+    vcover!(!t);
+}
+#[cfg_attr(kani, kani::proof)]
+#[cfg_attr(kani, kani::unwind(34))]
+#[cfg_attr(kani, kani::stub(midnight_curves::JubjubExtended::multiply, crate::stubs::jj_multiply_oracle))]
+pub fn jj_torsion_free_point_of_order_2r() {
+    jj_torsion_free_concrete(JJ_G_PLUS_ORDER2)
+}
+#[cfg_attr(kani, kani::proof)]
+#[cfg_attr(kani, kani::unwind(34))]
+#[cfg_attr(kani, kani::stub(midnight_curves::JubjubExtended::multiply, crate::stubs::jj_multiply_oracle))]
+pub fn jj_torsion_free_subgroup_point() {
+    jj_torsion_free_concrete(JJ_G)
+}
+
+/// (b) is_small_order (extended and affine) = u-coordinate of double(double(P)) is zero, with `double` an oracle
+#[cfg_attr(kani, kani::proof)]
+#[cfg_attr(kani, kani::unwind(34))]
+#[cfg_attr(kani, kani::stub(midnight_curves::JubjubExtended::double, crate::stubs::jj_double_oracle))]
+pub fn jj_is_small_order_contract() {
+    let mut l: [u64; 20] = any();
+    let affine: bool = any();
+    if affine {
+        let mut k = 0;
+        while k < 4 {
+            l[8 + k] = FQ_ONE[k];
+            l[12 + k] = l[k];
+            l[16 + k] = l[4 + k];
+            k += 1;
+        }
+    }
+    let s: bool = if affine {
+        JubjubAffine::from_raw_unchecked(
+            Base::from(blst::blst_fr { l: [l[0], l[1], l[2], l[3]] }),
+            Base::from(blst::blst_fr { l: [l[4], l[5], l[6], l[7]] }),
+        )
+        .is_small_order()
+        .into()
+    } else {
+        jj_from_limbs(&l).is_small_order().into()
+    };
+    unsafe {
+        assert!(JJ_DBL.n == 2 && eqn(&JJ_DBL.a[0][0], &l) && eqn(&JJ_DBL.a[1][0], &JJ_DBL.r[0]));
+        let r = JJ_DBL.r[1];
+        assert!(s == (r[0] == 0 && r[1] == 0 && r[2] == 0 && r[3] == 0));
+    }
+    vcover!(s && affine);
+    vcover!(s && !affine);
+    vcover!(!s);
+}
+
+/// (b) JubjubSubgroup::from_bytes (checked) is Some iff the affine decoder accepted (canonical v, square root exists, ZIP 216)
+/// AND the multiplication oracle, asked about the decoded point (u, v, 1, u, v) and r, answered the identity; the value is that
+/// point. from_bytes_unchecked is Some iff the affine decoder accepted and never consults the oracle.
+#[cfg_attr(kani, kani::proof)]
+#[cfg_attr(kani, kani::unwind(34))]
+#[cfg_attr(kani, kani::stub(midnight_curves::JubjubExtended::multiply, crate::stubs::jj_multiply_oracle))]
+#[cfg_attr(kani, kani::stub(ff::helpers::sqrt_tonelli_shanks, crate::stubs::sqrt_oracle))]
+#[cfg_attr(kani, kani::stub(blst::blst_scalar_fr_check, stub_scalar_fr_check))]
+#[cfg_attr(kani, kani::stub(zeroize::optimization_barrier, crate::stubs::noop_barrier))]
+#[cfg_attr(kani, kani::stub(blst::blst_fr_from_uint64, stub_fr_from_uint64))]
+#[cfg_attr(kani, kani::stub(blst::blst_uint64_from_fr, stub_uint64_from_fr))]
+#[cfg_attr(kani, kani::stub(blst::blst_fr_add, stub_fr_add))]
+#[cfg_attr(kani, kani::stub(blst::blst_fr_sub, stub_fr_sub))]
+#[cfg_attr(kani, kani::stub(blst::blst_fr_mul, stub_fr_mul))]
+#[cfg_attr(kani, kani::stub(blst::blst_fr_sqr, stub_fr_sqr))]
+#[cfg_attr(kani, kani::stub(blst::blst_fr_cneg, stub_fr_cneg))]
+#[cfg_attr(kani, kani::stub(blst::blst_fr_eucl_inverse, stub_fr_eucl_inverse))]
+pub fn jj_subgroup_from_bytes_contract() {
+    let b: [u8; 32] = any();
+    let checked: bool = any();
+    let sign = b[31] >> 7;
+    let r = if checked {
+        <JubjubSubgroup as GroupEncoding>::from_bytes(&b)
+    } else {
+        <JubjubSubgroup as GroupEncoding>::from_bytes_unchecked(&b)
+    };
+    let some: bool = r.is_some().into();
+    unsafe {
+        // verdict of the affine decoder, from the oracle logs (same reading as in jubjub_affine_from_bytes)
+        assert!(FR_CHECK.n == 1 && FR_MUL.n == 2 && SQRT.n == 1 && eqn(&SQRT.la[0], &FR_MUL.r[1]));
+        let sqrt_ok = SQRT.lb;
+        let u_in = if sqrt_ok { SQRT.lr } else { [0u64; 4] };
+        let flip = ((U64_FROM_FR.lr[0] as u8) ^ sign) & 1 == 1;
+        let decoder_ok = FR_CHECK.ok && sqrt_ok && !(is_zero_n(&u_in) && flip);
+        let u = if flip { FR_CNEG.lr } else { SQRT.lr };
+        let v = FR_FROM_U64.r[0];
+        let mut pt = [0u64; 20];
+        let mut k = 0;
+        while k < 4 {
+            pt[k] = u[k];
+            pt[4 + k] = v[k];
+            pt[8 + k] = FQ_ONE[k];
+            pt[12 + k] = u[k];
+            pt[16 + k] = v[k];
+            k += 1;
+        }
+        if checked {
+            assert!(JJ_MUL.n == 1 && eqb(&JJ_MUL_BY, &limbs4_to_bytes(&crate::c10::JFR_M)));
+            if decoder_ok {
+                assert!(eqn(&JJ_MUL.a[0][0], &pt), "the subgroup test is not about the decoded point");
+            }
+            assert!(some == (decoder_ok && ident_def(&JJ_MUL.r[0])), "JubjubSubgroup::from_bytes: Some differs from decoder ok AND [r]P identity");
+        } else {
+            assert!(JJ_MUL.n == 0);
+            assert!(some == decoder_ok);
+        }
+        if some {
+            assert!(eqn(&jj_limbs(&JubjubExtended::from(r.unwrap())), &pt));
+        }
+        vcover!(checked && decoder_ok && !some);
+    }
+    vcover!(some && checked);
+    vcover!(some && !checked);
+    vcover!(!some);
+}
